@@ -27,6 +27,9 @@ type machine struct {
 	afterRise map[string]bool // kinds of disturbing actions that happened after a rise of F
 	labels   map[string]bool
 	opts     node.GenOpts
+	fs       *countFS // non-nil: the node lives on a strict in-memory file system and may be killed inside a step
+	cfg      node.Config
+	carry    []node.EventRec // events of a step that ended in a crash but turned out durable
 }
 
 func (m *machine) logf(format string, a ...any) { m.hist = append(m.hist, fmt.Sprintf(format, a...)) }
@@ -43,7 +46,8 @@ func (m *machine) invariant(kind string) {
 	if F < m.F {
 		m.fail("finalized height decreased %d -> %d after %s", m.F, F, kind)
 	}
-	evs := n.TakeEvents()
+	evs := append(m.carry, n.TakeEvents()...)
+	m.carry = nil
 	var fin []*consensus.EventBlockFinalizeMessage
 	for _, e := range evs {
 		if e.Topic == consensus.EventBlockFinalize {
@@ -326,6 +330,62 @@ func (m *machine) sibling(t *rapid.T) {
 	m.invariant("sibling-" + kind)
 }
 
+// crashApply: the process dies at a drawn file-system operation while a valid block is being applied; whatever was not
+// synced is lost. The stored finalized height may only have moved together with the block that raises it.
+func (m *machine) crashApply(t *rapid.T) {
+	n := m.n
+	if m.fs == nil {
+		t.Skip("node not on a crashable file system")
+	}
+	if n.SlotOf(n.Tip().Header.Timestamp) >= n.Cfg.SlotsBehind-4 {
+		t.Skip("tip too close to the current slot")
+	}
+	fl := map[string]bool{}
+	sp := n.DrawSpec(t, m.opts, fl)
+	b, err := n.Build(sp)
+	if err != nil {
+		m.fail("build: %v", err)
+	}
+	crashAt := rapid.IntRange(0, 24).Draw(t, "crashAt")
+	n.TakeEvents()
+	m.fs.begin(crashAt)
+	perr := n.Exec.VerifProcess(node.CloneBlock(b), "peer")
+	ops, _ := m.fs.end()
+	evs := n.TakeEvents()
+	func() {
+		defer func() { recover() }()
+		n.Close()
+	}()
+	m.fs.MemFS.ResetToSyncedState()
+	m.fs.MemFS.SetIgnoreSyncs(false)
+	cfg := m.cfg
+	cfg.FS, cfg.DBPath = m.fs, "db"
+	n2, err := node.New(cfg)
+	if err != nil {
+		m.fail("crash at fs operation %d/%d while applying block %d: node does not restart: %v", crashAt, ops, b.Header.Height, err)
+	}
+	if err := n2.RebuildApp(); err != nil {
+		m.fail("rebuild application after crash: %v", err)
+	}
+	m.n = n2
+	landed := bytes.Equal(n2.Tip().Header.ID, b.Header.ID)
+	if landed {
+		m.carry = evs // the step is durable: its finalize events count
+	}
+	m.logf("crash at fs operation %d/%d while applying h=%d (process err=%v): block durable=%v, finalized=%d", crashAt, ops, b.Header.Height, perr, landed, n2.Finalized())
+	if !landed && n2.Finalized() != m.F {
+		m.fail("block %d was lost in the crash but the stored finalized height moved %d -> %d: not raised in the step that applies the block", b.Header.Height, m.F, n2.Finalized())
+	}
+	m.labels["crash"] = true
+	if landed {
+		m.labels["crash-block-durable"] = true
+	} else {
+		m.labels["crash-block-lost"] = true
+	}
+	m.afterRise["crash"] = true
+	m.invariant("crash-restart")
+}
+
 func (m *machine) restart(t *rapid.T) {
 	tip := m.n.Tip().Header.ID
 	if err := m.n.Restart(); err != nil {
@@ -355,11 +415,28 @@ func runMachine(t *rapid.T) {
 	nVal := rapid.IntRange(1, 5).Draw(t, "validators")
 	cfg := node.Config{Genesis: node.EqualGenesis(nVal), BatchSize: rapid.IntRange(nVal, nVal+2).Draw(t, "batch"),
 		MaxBlockCache: rapid.SampledFrom([]int{3, 515}).Draw(t, "cache"), KeepEvents: rapid.SampledFrom([]int{-1, 2, 300}).Draw(t, "keepEvents")}
+	var fs *countFS
+	if rapid.IntRange(0, 2).Draw(t, "crashable") == 0 {
+		fs = newCountFS()
+		if err := fs.MemFS.MkdirAll("db", 0o755); err != nil {
+			t.Fatalf("mkdir: %v", err)
+		}
+		for _, dir := range []string{"", "db"} {
+			d, err := fs.MemFS.OpenDir(dir)
+			if err != nil {
+				t.Fatalf("opendir: %v", err)
+			}
+			d.Sync()
+			d.Close()
+		}
+		cfg.FS, cfg.DBPath = fs, "db"
+	}
 	n, err := node.New(cfg)
 	if err != nil {
 		t.Fatalf("node: %v", err)
 	}
-	m := &machine{n: n, t: t, finalID: map[uint32][]byte{}, afterRise: map[string]bool{}, labels: map[string]bool{},
+	cfg.GenesisTS = n.Cfg.GenesisTS
+	m := &machine{n: n, t: t, finalID: map[uint32][]byte{}, afterRise: map[string]bool{}, labels: map[string]bool{}, fs: fs, cfg: cfg,
 		opts: node.GenOpts{MaxTxs: 2, AllowChange: true, AllowAgg: true, AllowStandby: true}}
 	defer func() { m.n.Close() }()
 	m.invariant("init")
@@ -374,6 +451,7 @@ func runMachine(t *rapid.T) {
 		"reorg":           m.reorg,
 		"sibling":         m.sibling,
 		"restart":         m.restart,
+		"crashApply":      m.crashApply,
 		"": func(t *rapid.T) {
 			if m.rises >= 1 && len(m.afterRise) > 0 {
 				disturbedAfterRise = true
